@@ -3,3 +3,10 @@ import TinsModel.Props.C06
 #print axioms Tins.Props.C06.tracker_refines_spec_wide
 #print axioms Tins.Props.C06.tracker_refines_spec
 #print axioms Tins.Props.C06.tracker_refines_spec_every_moment
+#print axioms Tins.Props.C06.tracker_refines_spec_fwd
+#print axioms Tins.Props.C06.tracker_refines_spec_static
+#print axioms Tins.Props.C06.half_window_needed
+#print axioms Tins.Props.C06.buffered_bytes_exact
+#print axioms Tins.Props.C06.delivered_is_prefix
+#print axioms Tins.Props.C06.each_byte_once
+#print axioms Tins.Props.C06.complete_prefix_delivered
